@@ -47,19 +47,25 @@ def np_union1d(ctx, a, b):
     return u
 
 
-def reduce_union1d(ctx, seq):
-    """functools.reduce(numpy.union1d, seq) for a symbolic-length sequence `seq` (seq_len / seq_at -> int Vec)."""
+def reduce_union1d(ctx, seq, initial=None):
+    """functools.reduce(numpy.union1d, seq[, initial]) for a symbolic-length sequence `seq` (seq_len / seq_at -> int Vec).
+    With an EMPTY integer array as initial value union1d is applied to every item (also to a single one): the result is the
+    strictly increasing union for every len(seq) >= 0."""
     n = seq.seq_len(ctx)
-    if not ctx.branch(n >= 1):
-        raise PyRaise('TypeError', note='reduce() of empty iterable with no initial value')
-    if ctx.branch(n == 1):
-        return seq.seq_at(ctx, z3.IntVal(0))
+    if initial is not None:
+        if not (isinstance(initial, Vec) and initial.kind == 'int' and ctx.entails(initial.n == 0)):
+            raise Unsupported('functools.reduce(numpy.union1d, seq, initial) with a non-empty or non-integer initial value')
+    else:
+        if not ctx.branch(n >= 1):
+            raise PyRaise('TypeError', note='reduce() of empty iterable with no initial value')
+        if ctx.branch(n == 1):
+            return seq.seq_at(ctx, z3.IntVal(0))
     u = Vec.fresh(ctx, 'reduce_union1d', 'int', report=False)
     item = z3.Function(ctx.name('runion.item'), I, I)
     src = z3.Function(ctx.name('runion.src'), I, I)
     pos = z3.Function(ctx.name('runion.pos'), I, I, I)
     ax = ('functools.reduce(numpy.union1d, seq), len(seq) >= 2: strictly increasing; items are exactly the items of the arrays in seq '
-          '(Skolem witnesses); len(seq) == 1: seq[0] itself')
+          '(Skolem witnesses); len(seq) == 1: seq[0] itself; with an empty int array as initial value: the strictly increasing union for every len(seq)')
     ctx.assume(strictly_increasing(u), axiom=ax)
 
     def at(m):
